@@ -197,7 +197,7 @@ CHECKS = {'C09': {'category': 'proof',
                  'propext/Classical.choice/Quot.sound. counters are Nat (no 2^64 wrap); capacity rounded to a multiple of 8 by the constructor after the fix commit.',
          'technique': 'Lean 4: invariant proofs over a two-thread atomic-step machine of the typed ring buffer (all interleavings, any capacity and batch sizes) tied by trace conformance; proved '
                       'sequential model of the variable-size record layout; byte-exact consumer oracle on the real void buffer',
-         'text': "C12_typed_fifo, buffer content, push/pop failure characterisations and never-overwrites are theorems about the machine that the real typed buffer's traces are replayed against step "
+         'text': "C12_ring_linearizable (history level: Herlihy-Wing linearizable to Spec.bfifo cap; all-or-nothing batches: C12_ring_linearizable_batches), C12_typed_fifo, buffer content, push/pop failure characterisations and never-overwrites are theorems about the machine that the real typed buffer's traces are replayed against step "
                  "by step (3000+ traces per run). The void variant's record layout (headers, tail markers, wrap) is a proved sequential model over the translated size helpers; its producer/consumer "
                  'interleavings are decided by the byte-exact oracle on explored schedules.'},
  'C08': {'category': 'proof',
@@ -234,7 +234,7 @@ CHECKS = {'C09': {'category': 'proof',
          'text': 'C21_freelist_no_double_handout, C21_freelist_conservation, C21_freelist_quiescent_complete, C21_freelist_ref_means_unchanged, C21_freelist_no_borrow and the tagged counterparts '
                  '(C21_tagged_cas_means_unchanged: equal tag means no successful head CAS in between) hold for any number of threads and nodes, with stale pointers and counted references on reused '
                  "nodes. Real traces (every atomic operation on head, m_freeListRefs, m_freeListNext with values, every result) are replayed against the machines; the start state is the machine's "
-                 "own run of the client's initial puts. CachedFreeList has no machine and is decided by the client's oracles.",
+                 "own run of the client's initial puts. History level (Props/C21FreeListsLin): C21_tagged_bag_linearizable (TaggedFreeList, every run, bag specification); the reference-counted FreeList is proved NOT linearizable to the strict bag (C21_freelist_not_bag_linearizable: spurious empty during the SHOULD_BE_ON_FREELIST hand-over) and linearizable to the weak bag (C21_freelist_bag_linearizable_partial). CachedFreeList has no machine and is decided by the client's oracles.",
          'note': 'SC interleavings only (threads serialised by a baton at every atomic operation); memory orders not modelled; explored schedules only for the history/oracle/trace ties; Lean kernel '
                  '+ propext/Classical.choice/Quot.sound. FreeList count below 2^31, TaggedFreeList tag unbounded; CachedFreeList: explored schedules only.'},
  'C24': {'category': 'proof',
